@@ -8,10 +8,19 @@ from proto import T
 RULE = ('random tables x grammar-derived texts with repeated licenses, the same operand sets in different orders, WITH pairs and '
         'unknown licenses, each listing call (license_symbols, license_keys, primary_license_symbol, primary_license_key, '
         'unknown_license_symbols, unknown_license_keys) under every combination of unique / decompose, on the string and on the parsed '
-        'object, with earlier calls on permuted expressions in the same process; Spec: the listing is computed independently from '
+        'object and on an expression parsed by another Licensing in another letter case, with earlier calls on permuted expressions in the same process; Spec: the listing is computed independently from '
         'the license tokens of Licensing.tokenize in text order; correspondence: every listing with the model. non-trivial = a '
         'license occurs twice or a WITH pair occurs; distinct by (table, text)')
 ASSUMPTIONS = []
+
+
+_PLAIN = []
+
+
+def le_plain():
+    if not _PLAIN:
+        _PLAIN.append(impl.le.Licensing())
+    return _PLAIN[0]
 
 
 def uniq(l):
@@ -96,6 +105,27 @@ class Prop(BaseProp):
             wpk = ([akey(x) for x in uniq([y for x in L for y in decomp(x)])] or [None])[0]
             if pk != wpk:
                 return Verdict('spec', case, 'primary_license_key on the %s' % arg_name, impl=pk, model=wpk)
+        # an expression parsed elsewhere (another Licensing, other letter case): the listings read only the expression and the table
+        foreign_text = text.swapcase() if impl.lower_is_charwise(text.swapcase()) and text.swapcase().lower() == text.lower() else text
+        fo = impl.outcome(lambda: le_plain().parse(foreign_text))
+        if P.is_ok(fo):
+            fe = fo[1]
+            FL = [impl.atom_c(s) for s in fe.get_literals()]
+            FD = [y for x in FL for y in decomp(x)]
+            for un in (True, False):
+                wu = [x for x in (uniq(FD) if un else FD) if x[1] not in known]
+                gu = [impl.atom_c(s) for s in lic.unknown_license_symbols(fe, unique=un)]
+                if gu != wu:
+                    return Verdict('spec', dict(case, foreign=foreign_text), 'unknown_license_symbols(unique=%s) on an expression parsed elsewhere' % un, impl=gu, model=wu)
+                wuk = [x[1] for x in FD if x[1] not in known]
+                wuk = uniq(wuk) if un else wuk
+                guk = lic.unknown_license_keys(fe, unique=un)
+                if guk != wuk:
+                    return Verdict('spec', dict(case, foreign=foreign_text), 'unknown_license_keys(unique=%s) on an expression parsed elsewhere' % un, impl=guk, model=wuk)
+                wk = [akey(x) for x in FD]
+                wk = uniq(wk) if un else wk
+                if lic.license_keys(fe, unique=un) != wk:
+                    return Verdict('spec', dict(case, foreign=foreign_text), 'license_keys(unique=%s) on an expression parsed elsewhere' % un, impl=lic.license_keys(fe, unique=un), model=wk)
         rep = drv.call_many([r for r, _ in reqs])
         for (r, got), m in zip(reqs, rep):
             if got != m:
